@@ -153,6 +153,14 @@ type Replay struct {
 	SourceHash string          `json:"source_hash"`
 	Shrinks    int             `json:"shrink_executions"`
 	Schedule   string          `json:"schedule"` // "controlled" | "uncontrolled"
+	// where in which worker's deterministic case sequence the violation was found: lets the
+	// driver re-run that sequence when the case alone does not reproduce in a fresh process
+	// (state that the code under test keeps in package-level variables across cases)
+	Worker  int    `json:"worker"`
+	Workers int    `json:"workers"`
+	Tier    string `json:"tier"`
+	Step    int64  `json:"step"`
+	Mode    string `json:"mode,omitempty"`
 	Note       string          `json:"note,omitempty"`
 }
 
